@@ -115,6 +115,7 @@ def generate(alg_name, struct_name, two_block, hermitian_input):
     lines.append(f"structure {struct_name} {A} (u : Unperturbed A) where")
     names = [mangle(n) for n in inputs + computed + [p.name for p in alg.products]]
     lines.append("  (" + " ".join(names) + " : A)")
+    nhead = len(lines)
     for h in inputs:
         hm = mangle(h)
         lines.append(f"  in_{hm}_zeroth : {hm} - tl {hm} = u.H0")
@@ -144,7 +145,33 @@ def generate(alg_name, struct_name, two_block, hermitian_input):
                 continue
             body = part_expr(s, part, two_block, "u.Sy")
             lines.append(f"  eq_{sm}_{part} : P Part.{part} {sm} = P Part.{part} ({start_wrap(s, body, inputs)})")
-    return "\n".join(lines) + "\n", {"inputs": inputs, "computed": computed, "products": [p.name for p in alg.products], "outputs": alg.outputs}
+    fields = [tuple(x.strip() for x in ln.strip().split(" : ", 1)) for ln in lines[nhead:]]
+    return "\n".join(lines) + "\n", {"inputs": inputs, "computed": computed, "products": [p.name for p in alg.products], "outputs": alg.outputs,
+                                     "data_fields": names, "prop_fields": fields}
+
+
+def to_main(gen, tb):
+    """`MainEqs2b.toMain`: a solution of the two-block equations is a solution of the general equations, provided the
+    equations whose text differs between the two variants are supplied as hypotheses `h_<field>`."""
+    import re
+    if gen["data_fields"] != tb["data_fields"]:
+        raise Unsupported("the two variants of main define different series")
+    names = sorted(gen["data_fields"], key=len, reverse=True)
+    pat = re.compile(r"(?<![\w.])(" + "|".join(re.escape(n) for n in names) + r")(?![\w])")
+    tbf = dict(tb["prop_fields"])
+    differing = [(f, t) for f, t in gen["prop_fields"] if tbf.get(f) != t]
+    A = "{A : Type*} [Ring A] [StarRing A] [Algebra ℚ A] [StarModule ℚ A] [Filtered A] [Blocks A]"
+    out = ["/-- A solution of the two-block-optimised equations solves the general equations once the differing equations are proved. -/",
+           f"def MainEqs2b.toMain {A} {{u : Unperturbed A}} (e : MainEqs2b A u)"]
+    for f, t in differing:
+        out.append(f"    (h_{f} : {pat.sub(lambda m: 'e.' + m.group(1), t)})")
+    out.append("    : MainEqs A u where")
+    for n in gen["data_fields"]:
+        out.append(f"  {n} := e.{n}")
+    dn = {f for f, _ in differing}
+    for f, _t in gen["prop_fields"]:
+        out.append(f"  {f} := " + (f"h_{f}" if f in dn else f"e.{f}"))
+    return "\n".join(out) + "\n"
 
 
 HEADER = """/- GENERATED by leanalg/genlean.py from pymablock/algorithms.py on every run: do not edit. -/
@@ -165,6 +192,10 @@ def write_all(outdir):
         t, m = generate(alg, struct, tb, herm)
         text += t + "\n"
         meta[struct] = m
+    text += to_main(meta["MainEqs"], meta["MainEqs2b"]) + "\n"
+    for m in meta.values():
+        m.pop("prop_fields", None)
+        m.pop("data_fields", None)
     text += "end PV\n"
     path = os.path.join(outdir, "Generated.lean")
     old = open(path).read() if os.path.exists(path) else None
